@@ -239,7 +239,7 @@ func c17merge(c *Ctx, i int, rng *rand.Rand) {
 	same := rng.Intn(2) == 0
 	names := pick3(rng)
 	for l := 0; l < nl; l++ {
-		o := model.GenOpts{Syn: rng.Intn(3) == 0, Vec: VecBuild && rng.Intn(2) == 0, NoBig: true, IDPrefix: fmt.Sprintf("m%d-", l)}
+		o := model.GenOpts{Syn: rng.Intn(3) == 0, Vec: VecBuild && rng.Intn(2) == 0, NoBig: true, IDPrefix: fmt.Sprintf("m%d-", l), VecSalt: 1 + i%997}
 		if same {
 			o.Names, o.Syn, o.Vec = names, false, false
 		}
